@@ -48,6 +48,22 @@ fn expect_rows(st: &mut Stats, order: u64, op: &str, dt: &DataType, got: Result<
     }
 }
 
+/// Dictionary arrays (2 rows, keys 0 and m-1) whose values are the prefix slices `values[..m]` of `a`'s values:
+/// same allocation and start pointer as `a`'s dictionary, fewer entries.
+pub fn prefix_dictionaries(a: &ArrayRef) -> Vec<(usize, ArrayRef)> {
+    let DataType::Dictionary(kt, _) = a.data_type() else { return vec![] };
+    let d = a.as_any_dictionary();
+    let vals = d.values();
+    let mut out = vec![];
+    for m in 1..vals.len() {
+        let pre = vals.slice(0, m);
+        let Ok(keys) = arrow_cast::cast(&arrow_array::Int64Array::from(vec![0i64, m as i64 - 1]), kt) else { continue };
+        let Ok(sd) = arrow_data::ArrayData::builder(a.data_type().clone()).len(2).add_buffer(keys.to_data().buffers()[0].clone()).add_child_data(pre.to_data()).build() else { continue };
+        out.push((m, arrow_array::make_array(sd)));
+    }
+    out
+}
+
 fn masks(n: usize) -> Vec<Vec<Option<bool>>> {
     let letters = [Some(true), Some(false), None];
     let mut out: Vec<Vec<Option<bool>>> = vec![vec![]];
@@ -245,6 +261,49 @@ fn kernels_on(ctx: &Ctx, st: &mut Stats, idx: u64, dt: &DataType, col: &[Val], l
     if let DataType::Dictionary(_, _) = dt {
         ev += 1;
         expect_rows(st, idx, "gc-dictionary", dt, catch(|| arrow_select::dictionary::garbage_collect_any_dictionary(a.as_any_dictionary())), col, &case);
+    }
+    // ---- aliased dictionaries: a second dictionary array whose values are a *prefix slice* of this array's
+    // values (same allocation, same start pointer, fewer entries) - kernels that recognise "the same
+    // dictionary" by pointer must not confuse the two
+    if let (DataType::Dictionary(kt, _), true) = (dt, full) {
+        let d = a.as_any_dictionary();
+        let vals = d.values();
+        for m in 1..vals.len() {
+            let pre = vals.slice(0, m);
+            let Ok(pre_rows) = catch(|| extract(pre.as_ref())) else { continue };
+            // keys: 0, m-1 (both valid for the prefix)
+            let Ok(keys) = arrow_cast::cast(&arrow_array::Int64Array::from(vec![0i64, m as i64 - 1]), kt) else { continue };
+            let Ok(sd) = arrow_data::ArrayData::builder(dt.clone()).len(2).add_buffer(keys.to_data().buffers()[0].clone()).add_child_data(pre.to_data()).build() else { continue };
+            let short = arrow_array::make_array(sd);
+            let short_rows = vec![pre_rows[0].clone(), pre_rows[m - 1].clone()];
+            let mut want = short_rows.clone();
+            want.extend_from_slice(col);
+            ev += 1;
+            expect_rows(st, idx, "concat-aliased-dictionary", dt, catch(|| arrow_select::concat::concat(&[short.as_ref(), a.as_ref()])), &want, &case);
+            let mut want2 = col.to_vec();
+            want2.extend(short_rows.iter().cloned());
+            ev += 1;
+            expect_rows(st, idx, "concat-aliased-dictionary", dt, catch(|| arrow_select::concat::concat(&[a.as_ref(), short.as_ref()])), &want2, &case);
+            let il: Vec<(usize, usize)> = (0..2).map(|i| (0, i)).chain((0..n).map(|i| (1, i))).rev().collect();
+            let wanti: Vec<Val> = il.iter().map(|p| if p.0 == 0 { short_rows[p.1].clone() } else { col[p.1].clone() }).collect();
+            ev += 1;
+            expect_rows(st, idx, "interleave-aliased-dictionary", dt, catch(|| arrow_select::interleave::interleave(&[short.as_ref(), a.as_ref()], &il)), &wanti, &case);
+            // MutableArrayData directly (merge / zip / coalescer all go through it)
+            ev += 1;
+            expect_rows(st, idx, "mutable-array-data-aliased-dictionary", dt, catch(|| {
+                let (sd, ad) = (short.to_data(), a.to_data());
+                let mut mu = arrow_data::transform::MutableArrayData::new(vec![&sd, &ad], false, 2 + n);
+                mu.try_extend(0, 0, 2)?;
+                mu.try_extend(1, 0, n)?;
+                Ok(arrow_array::make_array(mu.freeze()))
+            }), &want, &case);
+            if n == 2 {
+                let m2 = BooleanArray::from(vec![true, false]);
+                let wantz = vec![short_rows[0].clone(), col[1].clone()];
+                ev += 1;
+                expect_rows(st, idx, "zip-aliased-dictionary", dt, catch(|| arrow_select::zip::zip(&m2, &short, &a)), &wantz, &case);
+            }
+        }
     }
     // ---- record batch forms (two columns: the array and a row id)
     if n > 0 {
